@@ -52,9 +52,18 @@ func buildChain(r *lib.Rng, z *zoo) (*object, error) {
 		par.AddLambda(k, compose.InvokableLambdaWithOption(z.strNode(k)), compose.WithNodeKey(k))
 	}
 	ch.AppendParallel(par)
-	ch.AppendLambda(compose.InvokableLambda(func(ctx context.Context, in map[string]any) (string, error) {
+	// the join is a Collect lambda (stream in, value out): the fourth kind of user function
+	ch.AppendLambda(compose.CollectableLambda(func(ctx context.Context, in *schema.StreamReader[map[string]any]) (string, error) {
 		ev(ctx, "n:join")
-		s := renderAny(in)
+		cs, err := drain(in)
+		if err != nil {
+			return "", err
+		}
+		m, err := concatMaps(cs)
+		if err != nil {
+			return "", err
+		}
+		s := renderAny(m)
 		see(ctx, "node join", s)
 		return s, nil
 	}), compose.WithNodeKey("join"))
@@ -103,6 +112,7 @@ func buildChain(r *lib.Rng, z *zoo) (*object, error) {
 	d.edge("z", compose.END)
 	d.defaultMax()
 	mshared := []string{opT(0, "S", []string{pk[0]}, []string{"z"})}
+	shared = spare(shared) // spare capacity: an append to the options inside a run must not reach it
 	return &object{
 		desc: d,
 		mcall: func(sp spec, si int) string {
@@ -208,6 +218,12 @@ func buildState(r *lib.Rng, z *zoo) (*object, error) {
 			stCheck(ctx, "stream pre j", s)
 			s.Log = append(s.Log, "spre:j")
 			return in, nil
+		}),
+		compose.WithStreamStatePostHandler(func(ctx context.Context, out *schema.StreamReader[V], s *St) (*schema.StreamReader[V], error) {
+			ev(ctx, "spost:j")
+			stCheck(ctx, "stream post j", s)
+			s.Log = append(s.Log, "spost:j")
+			return out, nil
 		})))
 	for _, k := range par {
 		must.add(g.AddEdge(k, "j"))
@@ -255,12 +271,13 @@ func buildState(r *lib.Rng, z *zoo) (*object, error) {
 		d.edge("a", k)
 		d.edge(k, "j")
 	}
-	d.node("j", fn1("FJoinV", "j"), -1, "pre=HSPreJ")
+	d.node("j", fn1("FJoinV", "j"), -1, "pre=HSPreJ", "post=HSPostJ")
 	d.node("fin", "FFin", -1)
 	d.edge("j", "fin")
 	d.edge("fin", compose.END)
 	d.defaultMax()
 	mshared := []string{opT(0, "S", []string{"a"})}
+	shared = spare(shared) // spare capacity: an append to the options inside a run must not reach it
 	return &object{
 		desc: d,
 		mcall: func(sp spec, si int) string {
@@ -389,7 +406,6 @@ func buildNested(r *lib.Rng, z *zoo) (*object, error) {
 	if depth3 {
 		shared = append(shared, compose.WithLambdaOption(lopt{Val: "S3"}).DesignateNodeWithPath(compose.NewNodePath("sub", "inner", "x0")))
 	}
-	shared = shared[:len(shared):len(shared)]
 	dInner := &dGraph{dag: true}
 	for _, k := range []string{"x0", "x1"} {
 		dInner.node(k, fn1("FV", "inner."+k), 0, "out="+k)
@@ -425,6 +441,11 @@ func buildNested(r *lib.Rng, z *zoo) (*object, error) {
 	if depth3 {
 		mshared = append(mshared, opT(0, "S3", []string{"sub", "inner", "x0"}))
 	}
+	shared = spare(shared) // spare capacity: an append to the options inside a run must not reach it
+	badPath := []string{"sub2", "nosuch"}
+	if depth3 {
+		badPath = []string{"sub2", "inner", "nosuch"}
+	}
 	return &object{
 		desc: d, depth: 2,
 		mcall: func(sp spec, si int) string {
@@ -438,11 +459,12 @@ func buildNested(r *lib.Rng, z *zoo) (*object, error) {
 			if sp.Opt&optLambdaGlobal != 0 {
 				own = append(own, opT(0, fmt.Sprintf("g%d", si)))
 			}
+			own = append(own, mBadPathOpt(sp.Opt, badPath...)...)
 			return callTerm(vR(selfTag, 0, sp.In, fmt.Sprintf("in%d", sp.In)), mWithShared(sp.Opt, mshared, own), 0)
 		},
 		kind: "nested", shape: []string{fmt.Sprintf("depth3:%v", depth3), fmt.Sprintf("samesub:%v", sameSub)},
 		nIn: 4, paras: allParas,
-		optSet:  []int{0, optLambdaDesignated, optLambdaGlobal, optCbGlobal, optCbThree | optCbDesignated, optCtxHandlers | optLambdaDesignated, optShared, optShared | optLambdaDesignated, optShared | optCbGlobal | optLambdaGlobal},
+		optSet:  []int{0, optLambdaDesignated, optLambdaGlobal, optCbGlobal, optCbThree | optCbDesignated, optCtxHandlers | optLambdaDesignated, optShared, optShared | optLambdaDesignated, optShared | optCbGlobal | optLambdaGlobal, optBadPath, optBadPath | optShared | optCbGlobal},
 		baseCtx: sharedCtx,
 		call: func(ctx context.Context, rc *callRec, sp spec) string {
 			in := V{ID: rc.tag, Lim: sp.In, H: fmt.Sprintf("in%d", sp.In)}
@@ -459,6 +481,7 @@ func buildNested(r *lib.Rng, z *zoo) (*object, error) {
 				opts = append(opts, compose.WithLambdaOption(lopt{Tag: rc.tag, Val: fmt.Sprintf("g%d", rc.spec)}))
 			}
 			opts = append(opts, cbOptions(rc, sp.Opt, []string{"sub", "sub2"})...)
+			opts = append(opts, badPathOpt(rc, sp.Opt, badPath...)...)
 			return runPara[V, V](ctx, run, sp.Para, in, codecV, withShared(sp.Opt, shared, opts))
 		},
 	}, nil
